@@ -155,7 +155,7 @@ def noise(rng):
     if rng.random() < 0.5: return bytes(rng.randrange(256) for _ in range(n))
     return bytes(rng.choice(b"0123456789.,-+eE?: \n\r\t#;") for _ in range(n))
 
-def exactness(b):
+def exactness(b, lim=290):
     """exact: Spirit's double_ performs one correctly rounded operation on every number of the text;
        masked: values may differ in the last place (long digit strings / large exponents): structure compared only;
        monitor: the verdict itself may differ (scale() failures of Spirit on |exponent| > 300)"""
@@ -166,7 +166,7 @@ def exactness(b):
         if not ip and not fp: continue
         sig = len((ip + fp).lstrip("0"))
         e = int(ex) if ex and len(ex) < 8 else (0 if not ex else 10 ** 6)
-        if abs(e) + len(ip) + len(fp) > 290: return "monitor"
+        if abs(e) + len(ip) + len(fp) > lim: return "monitor"
         if sig > 15 or abs(e - len(fp)) > 22 or len(ip + fp) > 18: lvl = "masked"
     return lvl
 
@@ -367,6 +367,7 @@ def main():
         "Boost.Spirit (the grammars are transcribed by hand into the model; the transcription is what the correspondence check tests), libstdc++ iostreams, AddressSanitizer/UBSan runtime"]
     ck.assumptions = [
         "maximumBatchSize >= 1 for the CSV importers (0 divides by zero in optimalBatchSizes: outside the domain, the model says Fault)",
+        "numbers whose decimal exponent leaves the range of the target type (|e| > ~300 for double_, > ~30 for float_) are outside the exact comparison: Spirit's scale() fails there and the verdict is only monitored",
         "separator and comment character are not characters of a number ([0-9+-.eE?] and letters of nan/inf), not a line end, and differ from each other",
         "round trip: finite values; exported numbers are compared as printed tokens in the theorem and as doubles by the monitor",
         "memory safety, termination and exception type of the compiled Spirit parsers on arbitrary bytes are observed at run time (ASan+UBSan, SIGALRM), not proved"]
@@ -383,20 +384,23 @@ def main():
     # ---- cases: (line, mode) mode in exact|masked|monitor|roundtrip
     cases = []
     def add(head, payload, force=None):
-        cases.append((case_line(head, payload), force or exactness(payload)))
+        # Data<float>: Spirit's float_ rejects decimal exponents beyond float range (scale() fails): verdict not modelled there
+        cases.append((case_line(head, payload), force or exactness(payload, 30 if head[:2] == ["SCL", "f"] else 290)))
+    def mode_of_line(l):
+        t = l.split(" ")
+        if t[0][0] == "X": return "roundtrip"
+        need = {"CSV": 10, "SCL": 6, "SVM": 8}.get(t[0], 99)
+        pay = bytes.fromhex(t[-1]) if len(t) >= need and re.fullmatch(r"(?:[0-9a-f]{2})*", t[-1]) else b""
+        return exactness(pay, 30 if t[:2] == ["SCL", "f"] else 290)
+    def load(path):
+        for l in open(path).read().split("\n"):
+            if l.strip() and not l.startswith("#"): cases.append((l.strip(), mode_of_line(l.strip())))
     if ck.replay:
-        for l in open(ck.replay).read().split("\n"):
-            if l.strip() and not l.startswith("#"):
-                t = l.split(" ")
-                pay = bytes.fromhex(t[-1]) if t[0] in ("CSV", "SCL", "SVM") and re.fullmatch(r"(?:[0-9a-f]{2})*", t[-1]) and len(t) > (9 if t[0] == "CSV" else 5 if t[0] == "SCL" else 7) else b""
-                cases.append((l, "roundtrip" if t[0][0] == "X" else exactness(pay)))
+        load(ck.replay)
     else:
         cdir = os.path.join(ROOT, "corpus", PID)
         if os.path.isdir(cdir):
-            for f in sorted(os.listdir(cdir)):
-                for l in open(os.path.join(cdir, f)).read().split("\n"):
-                    if l.strip() and not l.startswith("#"):
-                        t = l.split(" "); cases.append((l, "roundtrip" if t[0][0] == "X" else exactness(bytes.fromhex(t[-1]) if len(t[-1]) % 2 == 0 and re.fullmatch(r"[0-9a-f]*", t[-1]) else b"")))
+            for f in sorted(os.listdir(cdir)): load(os.path.join(cdir, f))
         for _ in range(700 * scale):
             h, p = gen_csv(rng, big); add(h, p)
             if rng.random() < 0.5: add(h, mutate(rng, p))
@@ -425,13 +429,13 @@ def main():
 
     # ---- sanitizer run (quick tier too: the ASan objects are cached by content hash)
     asan_out = None
+    asan_env = {"ASAN_OPTIONS": "detect_leaks=0:abort_on_error=0:allocator_may_return_null=1:max_allocation_size_mb=4096", "UBSAN_OPTIONS": "print_stacktrace=1"}
     aexe, aerr = cxx_build("c19_import", srcs, flags=ASAN_FLAGS, tag="asan")
     if aexe is None:
         ck.oblige("ASan+UBSan build of the importer harness", False, aerr)
     else:
         sub = list(range(len(lines))) if big else [i for i, (c, m) in enumerate(cases) if m == "monitor" or i % 3 == 0 or c.startswith("SVM")]
-        env = {"ASAN_OPTIONS": "detect_leaks=0:abort_on_error=0:allocator_may_return_null=1:max_allocation_size_mb=4096", "UBSAN_OPTIONS": "print_stacktrace=1"}
-        ao = run_all(aexe, [lines[i] for i in sub], os.path.join(tmpd, "asan_in.txt"), env=env, args=["--timeout=60"])
+        ao = run_all(aexe, [lines[i] for i in sub], os.path.join(tmpd, "asan_in.txt"), env=asan_env, args=["--timeout=60"])
         asan_out = dict(zip(sub, ao))
 
     # ---- decide
@@ -481,11 +485,13 @@ def main():
     def shrink_payload(line, key):
         """ddmin on the payload bytes, keeping the same violation key (implementation only)"""
         t = line.split(" ")
-        if t[0] not in ("CSV", "SCL", "SVM") or len(t[-1]) % 2 or not re.fullmatch(r"[0-9a-f]+", t[-1]) or len(t[-1]) > 600: return line
+        if t[0] not in ("CSV", "SCL", "SVM") or len(t[-1]) % 2 or not re.fullmatch(r"[0-9a-f]+", t[-1]) or len(t[-1]) > 4000: return line
         pay = list(bytes.fromhex(t[-1]))
+        use_asan = key.endswith("memory-error") and aexe is not None
         def fails(bs):
             l = " ".join(t[:-1] + [bytes(bs).hex()])
-            (o, rc, e), = run_all(exe, [l], os.path.join(tmpd, "s_impl.txt"), args=hargs)
+            if use_asan: (o, rc, e), = run_all(aexe, [l], os.path.join(tmpd, "s_asan.txt"), env=asan_env, args=["--timeout=60"])
+            else: (o, rc, e), = run_all(exe, [l], os.path.join(tmpd, "s_impl.txt"), args=hargs)
             if o is None: return key.endswith(crash_key(rc, e)[0]) or key.endswith("memory-error")
             return any(k.split(":")[-1] == key.split(":")[-1] for k, _ in monitor_line(l, o))
         try:
